@@ -3,7 +3,10 @@
 (* Trace validation for C07.  One trace = one import scenario executed on  *)
 (* the real library (harness/import_gen.py):                                *)
 (*   arch, method, mode, fold, auto, hist     the scenario                  *)
-(*   O        layer sequence of the user's model (fx projection, before)    *)
+(*   O        layer sequence of the network the harness built (fx           *)
+(*            projection of a twin without any plinio object)               *)
+(*   OP       layer sequence of the user's model itself (with its           *)
+(*            hand-placed PIT layers), user_ok: it can be evaluated         *)
 (*   snopt0 / snopt1  options of every SuperNet block read from the USER's  *)
 (*            combiner objects before / after the conversion                *)
 (*   conv_ok, err, errk                      did the constructor return     *)
@@ -84,6 +87,14 @@ CHarness(t, a, asis) ==
          THEN D("harness: options of the built SuperNet blocks " \o ToString(t.snopt0) \o " differ from the architecture")
     ELSE IF t.conv_ok /\ ~HistOk(t.hist, 1, IF t.method = "SN" THEN asis.wtrain ELSE t.mode = "train")
          THEN D("harness: history " \o ToString(t.hist) \o " is not a behaviour of the state machine")
+    ELSE OK
+
+\* a PIT layer the user placed by hand stands for the plain layer it was built from (README: drop-in replacement): the user's
+\* model can be evaluated and its layers have the configuration the user asked for
+CPlaced(t) ==
+    IF ~t.user_ok THEN V("C07.placed_layer: " \o t.err)
+    ELSE IF t.OP # t.O THEN V("C07.placed_config: hand-placed PIT layer differs from the layer it was built from: " \o FirstDiff(t.OP, t.O))
+    ELSE IF t.dpl # -1 /\ ~(t.dpl \in 0..TOL) THEN D("user's model with hand-placed PIT layers (all masks open) differs from its plain twin by " \o ToString(t.dpl) \o "e-12")
     ELSE OK
 
 \* the constructor returns; documented rejections are skipped; the F52 / F53 topologies are known findings
@@ -246,8 +257,9 @@ Check(t) ==
         cfg  == CfgOf_(t)
         asis == Convert("asis", a, cfg)
     IN  IF CHarness(t, a, asis) # OK THEN CHarness(t, a, asis)[2]       \* the scenario itself is not what the specification describes
-        ELSE IF ~t.conv_ok THEN Pick(<<CConvert(t, a, cfg)>>)
-        ELSE Pick(<<CConvert(t, a, cfg), CMasks(t, a, cfg), CNasCfg(t, a, cfg), CWrapped(t, a, cfg, asis),
+        ELSE IF ~t.user_ok THEN CPlaced(t)[2]
+        ELSE IF ~t.conv_ok THEN Pick(<<CPlaced(t), CConvert(t, a, cfg)>>)
+        ELSE Pick(<<CPlaced(t), CConvert(t, a, cfg), CMasks(t, a, cfg), CNasCfg(t, a, cfg), CWrapped(t, a, cfg, asis),
                     CUserParams(t, a, cfg, asis), CUserOut(t, a, cfg, asis), CUserAttrs(t, a), CMode(t), CHist(t, a, cfg),
                     CHistOut(t, a, cfg, asis), CExport(t, a, cfg, asis), CPredict(t, a, cfg, asis)>>)
 
